@@ -133,6 +133,47 @@ CHECKS.update({
          "eigsy/eighe/eig/svd/schur/hessenberg residuals, orthonormality, realness and ordering; Gauss-Legendre rules integrate monomials to degree 2n-1.",
          OBL_NOTE + " Tolerance ||A||*2^(10-p)*n^2.", "DESIGN.md §4 C31"),
 })
+REL_NOTE = OBL_NOTE + " The relational part (one real number behind the values at two precisions; identities between outputs) is a necessary condition: an error identical at both precisions and commuting with the identities is not detected. Sampling is confined to a moderate argument domain (DESIGN.md 5.2 item 13)."
+CHECKS.update({
+ "C12": (EX, OBL_TECH + "; algebraic functions judged by exact integer inequalities; transcendental ones relationally (cross-precision, identities)",
+         "sqrt/cbrt/root/hypot/complex sqrt by (r(1-eps))^n <= x <= (r(1+eps))^n exactly; every listed elementary function on real/complex arguments incl. cancellation sites by cross-precision consistency "
+         "and exact identities between outputs; real-domain rule.", REL_NOTE, "DESIGN.md §4 C12"),
+ "C13": (EX, OBL_TECH + " (exact equalities on raw tuples)",
+         "exp(0), log(1), ...; roots of constructed perfect powers; sinpi/cospi at huge integers and half-integers; powm1 zeros; finiteness of tan/cot/sec/csc next to k*pi/2; inf/nan table.",
+         OBL_NOTE + " pi for atan(inf) is the library's (C17).", "DESIGN.md §4 C13"),
+ "C18": (EX, OBL_TECH + "; exact values at integer points; cross-precision consistency and recurrences elsewhere",
+         "gamma/factorial/rgamma/harmonic/digamma differences/superfac/hyperfac/barnesg at integers against exact values; poles; SameReal and the shift/beta/loggamma identities at rational and complex arguments.",
+         REL_NOTE, "DESIGN.md §4 C18"),
+ "C19": (EX, OBL_TECH + "; exact values at rational-valued points; cross-precision consistency and identities elsewhere",
+         "zeta(-n), altzeta(-n), polylog at non-positive integer orders exactly; SameReal for the whole family; Hurwitz shift, polylog duplication, |Z(t)| = |zeta(1/2+it)|.",
+         REL_NOTE, "DESIGN.md §4 C19"),
+ "C20": (EX, OBL_TECH + "; betainc with integer parameters exactly; cross-precision consistency and identities elsewhere",
+         "SameReal for erf/erfc (tails)/erfi/erfinv/npdf/ncdf/ei/e1/expint/li/si/ci/shi/chi/fresnel/gammainc variants/betainc; erf+erfc, symmetries, gammainc split, expint recurrence.",
+         REL_NOTE, "DESIGN.md §4 C20"),
+ "C21": (EX, OBL_TECH + "; three-term recurrences, Airy ODE, zero ordering and sign changes; cross-precision consistency",
+         "SameReal for the Bessel/Airy/Struve/Kelvin/Scorer/Coulomb/Anger-Weber/Lommel family and their zeros; recurrences in the order; y'' = x y; zeros increasing with sign change.",
+         REL_NOTE, "DESIGN.md §4 C21"),
+ "C23": (EX, OBL_TECH + "; exact q-Pochhammer products, AGM sandwich; cross-precision consistency and identities",
+         "qp finite products exactly; agm within [sqrt(xy), (x+y)/2], symmetric, homogeneous; Carlson symmetry/homogeneity; Legendre relation; Lambert W defining equation; SameReal for the whole family.",
+         REL_NOTE, "DESIGN.md §4 C23"),
+ "C29": (EX, OBL_TECH + " (exact residuals of planted-root polynomials; structure of polyroots output)",
+         "findroot(verify=True) residual and bracket containment for every solver; mnewton on multiple roots; multiplicity; polyroots count, residual vs error estimate, real-first and adjacent-conjugate order.",
+         OBL_NOTE, "DESIGN.md §4 C29"),
+ "C32": (EX, OBL_TECH + " (residual identities between matrix-function outputs)",
+         "expm(logm A) = A, sqrtm(A)^2 = A, powm = A**k, cosm^2 + sinm^2 = I, expm methods agree, expm of diagonal matrices.", OBL_NOTE + " Tolerance ||A||*2^(10-p)*4n^2.", "DESIGN.md §4 C32"),
+ "C35": (EX, OBL_TECH + " (relations re-checked against the inputs without square roots)",
+         "pslq vectors: integer, nonzero, below maxcoeff, (sum c x)^2 <= tol^2 sum x^2; planted relations must be found; findpoly degree and residual.", OBL_NOTE + " identify() is not judged.", "DESIGN.md §4 C35"),
+ "C36": (EX, OBL_TECH + " (recovered coefficients vs planted rational/integer coefficients)",
+         "chebyfit of polynomials of degree < N and its error bound; fourier of trigonometric polynomials; fourierval at 0.", OBL_NOTE, "DESIGN.md §4 C36"),
+ "C41": (EX, OBL_TECH + "; ten anchored zero ordinates as spec constants; ordering/counting relations beyond",
+         "zetazero(n<=10) inside 6-decimal enclosures with real part exactly 1/2; conjugates; increasing ordinates; nzeros consistency; siegelz sign change; gram points; backlunds.",
+         OBL_NOTE + " Beyond index 10 a consistent shift of zetazero and nzeros is invisible.", "DESIGN.md §4 C41"),
+ "C42": (EX, OBL_TECH + " (exact polynomial inverses; closed forms via the library at higher precision otherwise)",
+         "1/p^k <-> t^(k-1)/(k-1)! for the three methods within 10^(3-dps/2); exp/sin/cos inverses for talbot and dehoog.", OBL_NOTE, "DESIGN.md §4 C42"),
+ "C43": (EX, OBL_TECH + " (fp double vs mp 53-bit value as exact dyadics)",
+         "Result types, principal complex values outside real domains, agreement to 2^-48 relative or 2^-300 absolute for every elementary function over all double magnitude classes.",
+         OBL_NOTE + " Agreement is relative to mp, as the property is stated.", "DESIGN.md §4 C43"),
+})
 
 ALL = ["C%02d" % i for i in range(1, 44)]
 NOT_APPLICABLE = {
